@@ -140,7 +140,7 @@ def run(ctx, b, drv):
         r = gens.rng(ctx.seed, 'c10', v)
         srcs = [(f, s) for f, s in refpy.stdlib_files(v, nfiles, r)]
         for i in range(ngen):
-            kind, code = gens.text_case(ctx.seed, 'c10-%s' % v, i, ['valid', 'mutate', 'valid'])
+            kind, code = gens.text_case(ctx.seed, 'c10-%s' % v, i, ['valid', 'mutate', 'semantic'])
             if '\r' in code or '\x0c' in code:
                 continue
             srcs.append(('gen:%s:%d' % (kind, i), code))
